@@ -205,6 +205,15 @@ def run_check(mod, tier, seed, workers=None, keep_digests=False, extra_env=None,
             else:
                 res, txt = verify_replay(path, v["replay"].get("hashseed", "0"), scratch, extra_env)
                 ok = res is not None and res["reproduced"]
+                if not ok and res is not None and v["replay"].get("history") and not v["replay"]["history"].get("reverse"):
+                    # not reproducible in isolation: does it reproduce when the worker's earlier runs are executed first?
+                    # then the code under test carries state across calls and the violation is real and exactly replayable
+                    v["replay"]["needs_history"] = True
+                    v["replay"]["violation"]["message"] += " [only after the earlier runs of the same worker: the outcome depends on state carried across calls]"
+                    with open(path, "w") as fh:
+                        json.dump(v["replay"], fh, indent=1)
+                    res, txt = verify_replay(path, v["replay"].get("hashseed", "0"), scratch, extra_env)
+                    ok = res is not None and res["reproduced"]
                 if not ok:
                     harness.append(f"replay {path} did not reproduce in a fresh interpreter: {txt[-800:] if res is None else res['violations']}")
                     continue
